@@ -169,8 +169,9 @@ def describe(prog, indent=0):
 def run(ch, ctx, fault=None):
     profile = Profile(name="XTerm", version="370",
                       answers={"da1", "decrqm", "xtversion", "14t", "16t", "osc10", "osc11"})
+    # (a buffered stdout: what the screen writes reaches the terminal at its flush())
     w = World(ctx, ch, fault, rows=24, cols=80, profile=profile, cell_px=(8, 16), reuse=True,
-              with_widget=True, prefill=False)
+              with_widget=True, prefill=False, buffered=ch.bool("stdout_buffered", 0.5))
     k, tty, vt, out = w.k, w.tty, w.vt, w.out
     k.log_seams = False
     tty.ioctl_pixels = ch.bool("ioctl_px", 0.7)
@@ -276,6 +277,13 @@ def run(ch, ctx, fault=None):
         orig_deliver = out._deliver
 
         def deliver(data):
+            # the screen's flush() is synchronized: its bytes never reach the terminal while
+            # another task owns the terminal lock (is in the middle of a query, say)
+            owner = getattr(u0._tty_lock, "owner", None)
+            if owner not in (None, tid()):
+                raise Violation("screen_output_flushed_while_another_task_owns_the_terminal",
+                                {"writer": tid(), "lock_owner": owner, "data": bytes(data)[:30]},
+                                "screen")
             was = vt.synced
             if was and sync_owner[0] not in (None, tid()):
                 raise Violation("screen_output_interleaved_inside_synchronized_update",
